@@ -27,7 +27,7 @@ def elem_of(t):
 def impl_fn(p, impl, name):
     for it in impl["items"]:
         if it["name"] == name and it["key"] in p.funcs:
-            return p.funcs[it["key"]]
+            return p.fn(it["key"])      # private helpers that read / write part of the encoding are spliced in
     return None
 
 
